@@ -192,6 +192,13 @@ func (c *evalCtx) ev1(t *Term) uint64 {
 		return u64(math.Trunc(f64(c.ev(a[0]))))
 	case "fp.to_sbv":
 		f := f64(c.ev(a[0]))
+		if t.param == 32 {
+			if f != f || f >= 2147483648.0 || f <= -2147483649.0 {
+				c.bad = true
+				return 0
+			}
+			return uint64(int64(f)) & mask(32)
+		}
 		if f != f || f >= 9223372036854775808.0 || f < -9223372036854775808.0 {
 			c.bad = true // unspecified in SMT-LIB (the engine guards it with an ite, so this branch is not normally evaluated)
 			return 0
